@@ -186,6 +186,13 @@ ListEffect(f, x, y, s, i, j) ==
                           ELSE Raise(x \o "[" \o Sl(i, j) \o ":2] = " \o y, "ValueError")
     [] f = "setslicem1" -> IF SetSliceOk(L, i, j, -1, M) THEN Mut(x, SetSliceD(L, i, j, -1, M), x \o "[" \o Sl(i, j) \o ":-1] = " \o y)
                            ELSE Raise(x \o "[" \o Sl(i, j) \o ":-1] = " \o y, "ValueError")
+    \* whole-list extended slices: the same-length rule makes these the extended assignments that succeed when the
+    \* right-hand side is the list itself or an alias; every item of the right-hand side is read before any is written
+    [] f = "setrev" -> IF SetSliceOk(L, NoneV, NoneV, -1, M) THEN Mut(x, SetSliceD(L, NoneV, NoneV, -1, M), x \o "[::-1] = " \o y)
+                       ELSE Raise(x \o "[::-1] = " \o y, "ValueError")
+    [] f = "seteven" -> LET E == GetSliceD(M, NoneV, NoneV, 2)
+                        IN IF SetSliceOk(L, NoneV, NoneV, 2, E) THEN Mut(x, SetSliceD(L, NoneV, NoneV, 2, E), x \o "[::2] = " \o y \o "[::2]")
+                           ELSE Raise(x \o "[::2] = " \o y \o "[::2]", "ValueError")
     [] f = "delslice" -> Mut(x, DelSliceD(L, i, j, NoneV), "del " \o x \o "[" \o Sl(i, j) \o "]")
     [] f = "delslice2" -> Mut(x, DelSliceD(L, i, j, 2), "del " \o x \o "[" \o Sl(i, j) \o ":2]")
     [] f = "delslicem1" -> Mut(x, DelSliceD(L, i, j, -1), "del " \o x \o "[" \o Sl(i, j) \o ":-1]")
@@ -211,7 +218,7 @@ ListEffect(f, x, y, s, i, j) ==
 \* which parameters a form reads (the others are pinned so that a statement is enumerated once)
 ListUses(f) ==
   CASE f \in {"append", "remove", "contains", "index", "count"} -> {"s"}
-    [] f \in {"appendref", "extend", "copy", "iadd", "slicecopy", "listcopy", "concat", "concat2", "repeat", "rebind", "eq", "forappend", "listcomp"} -> {"y"}
+    [] f \in {"appendref", "extend", "copy", "iadd", "slicecopy", "listcopy", "concat", "concat2", "repeat", "rebind", "eq", "forappend", "listcomp", "setrev", "seteven"} -> {"y"}
     [] f \in {"insert", "setitem"} -> {"i", "s"}
     [] f \in {"popi", "delitem", "getitem", "imul"} -> {"i"}
     [] f \in {"setslice", "setslice2", "setslicem1", "getslice"} -> {"y", "i", "j"}
@@ -228,7 +235,7 @@ ListEnabled(f, x, y, s, i, j) ==
   /\ f \in ListMethods => Has(ListMethod(f))
   /\ f \in SliceForms => PairOk(i, j)
   \* copying references into an object must not make it reachable from itself
-  /\ f \in {"extend", "iadd", "setslice", "setslice2", "setslicem1"} => \A b \in Refs(M) : NoCycle(heap, var[x], b)
+  /\ f \in {"extend", "iadd", "setslice", "setslice2", "setslicem1", "setrev", "seteven"} => \A b \in Refs(M) : NoCycle(heap, var[x], b)
   /\ f = "forappend" => \A b \in Refs(L) : NoCycle(heap, var[y], b)
   /\ CASE f = "append" -> Small(n + 1)
        [] f = "appendref" -> Small(n + 1) /\ NoCycle(heap, var[x], var[y])
